@@ -63,8 +63,19 @@ func process1Map(obj map[string]any, mergeFrom *Document, mergeFromDocs []*Docum
 	})
 }
 
-func process1MapMerge(obj map[string]any, mergeFrom *Document, mergeFromDocs []*Document, v any, depth int) (any, error) {
+// getCopy resolves a reference and returns a private copy, so that evaluating
+// the referencing position never modifies the referenced subtree.
+func getCopy(mergeFrom *Document, mergeFromDocs []*Document, v any) (any, error) {
 	in, err := get(mergeFrom, mergeFromDocs, v)
+	if err != nil {
+		return nil, err
+	}
+
+	return deepClone(in)
+}
+
+func process1MapMerge(obj map[string]any, mergeFrom *Document, mergeFromDocs []*Document, v any, depth int) (any, error) {
+	in, err := getCopy(mergeFrom, mergeFromDocs, v)
 	if err != nil {
 		return nil, err
 	}
@@ -78,7 +89,7 @@ func process1MapMerge(obj map[string]any, mergeFrom *Document, mergeFromDocs []*
 }
 
 func process1MapReplace(obj map[string]any, mergeFrom *Document, mergeFromDocs []*Document, v any, depth int) (any, error) {
-	next, err := get(mergeFrom, mergeFromDocs, v)
+	next, err := getCopy(mergeFrom, mergeFromDocs, v)
 	if err != nil {
 		return nil, err
 	}
@@ -139,7 +150,7 @@ func process1List(obj []any, mergeFrom *Document, mergeFromDocs []*Document, dep
 }
 
 func process1ListMerge(obj []any, mergeFrom *Document, mergeFromDocs []*Document, m any, depth int) ([]any, error) {
-	in, err := get(mergeFrom, mergeFromDocs, m)
+	in, err := getCopy(mergeFrom, mergeFromDocs, m)
 	if err != nil {
 		return nil, err
 	}
@@ -148,7 +159,7 @@ func process1ListMerge(obj []any, mergeFrom *Document, mergeFromDocs []*Document
 }
 
 func process1ListReplace(obj []any, mergeFrom *Document, mergeFromDocs []*Document, m any, depth int) (any, error) {
-	next, err := get(mergeFrom, mergeFromDocs, m)
+	next, err := getCopy(mergeFrom, mergeFromDocs, m)
 	if err != nil {
 		return nil, err
 	}
@@ -171,7 +182,7 @@ func process1String(obj string, mergeFrom *Document, mergeFromDocs []*Document, 
 func process1StringMerge(obj string, mergeFrom *Document, mergeFromDocs []*Document, depth int) (any, error) {
 	path := strings.TrimPrefix(obj, "$merge:")
 
-	in, err := get(mergeFrom, mergeFromDocs, path)
+	in, err := getCopy(mergeFrom, mergeFromDocs, path)
 	if err != nil {
 		return nil, err
 	}
@@ -182,7 +193,7 @@ func process1StringMerge(obj string, mergeFrom *Document, mergeFromDocs []*Docum
 func process1StringReplace(obj string, mergeFrom *Document, mergeFromDocs []*Document, depth int) (any, error) {
 	path := strings.TrimPrefix(obj, "$replace:")
 
-	in, err := get(mergeFrom, mergeFromDocs, path)
+	in, err := getCopy(mergeFrom, mergeFromDocs, path)
 	if err != nil {
 		return nil, err
 	}
